@@ -1,0 +1,174 @@
+//! Verification-only instrumentation, compiled only with the cargo feature `verif_hooks`
+//! (off by default). Nothing in here is reachable from a default build.
+//!
+//! It offers (a) a per-thread recorder of the final gate instances of the last circuit built on
+//! this thread, (b) per-thread "adversarial prover" knobs that let a test harness make the real
+//! prover deviate from the protocol at a few well-defined points, and (c) read-only re-exports of
+//! a few crate-private helpers.
+
+use std::any::Any;
+use std::cell::RefCell;
+
+use crate::field::extension::Extendable;
+use crate::field::polynomial::{PolynomialCoeffs, PolynomialValues};
+use crate::field::types::Field;
+use crate::gates::gate::GateInstance;
+use crate::hash::hash_types::RichField;
+use crate::hash::merkle_proofs::MerkleProof;
+use crate::iop::target::Target;
+use crate::iop::witness::PartitionWitness;
+use crate::plonk::config::Hasher;
+
+/// Adversarial-prover knobs. All default to "off" (honest behaviour).
+#[derive(Clone, Debug, Default)]
+pub struct Knobs {
+    /// Replace every `Z` and partial-product polynomial by the all-zero polynomial.
+    pub zero_zs: bool,
+    /// Multiply every `Z` and partial-product value by this constant (degenerate scaling).
+    pub scale_zs: Option<u64>,
+    /// `(challenge index, coefficient index, delta)`: add `delta` to one coefficient of the
+    /// quotient polynomial computed for one challenge.
+    pub quotient_perturb: Option<(usize, usize, u64)>,
+    /// Truncate each quotient polynomial to its expected length instead of failing when the
+    /// discarded coefficients are non-zero.
+    pub lenient_quotient: bool,
+    /// Use this proof-of-work witness instead of searching for one.
+    pub pow_witness: Option<u64>,
+    /// `(row, column, value)` cells overwritten (through their copy class) after the lookup
+    /// wires have been filled in by the prover.
+    pub witness_overrides: Vec<(usize, usize, u64)>,
+}
+
+thread_local! {
+    static KNOBS: RefCell<Knobs> = RefCell::new(Knobs::default());
+    static RECORDED: RefCell<Option<Box<dyn Any>>> = const { RefCell::new(None) };
+}
+
+pub fn set_knobs(k: Knobs) {
+    KNOBS.with(|c| *c.borrow_mut() = k);
+}
+
+pub fn reset_knobs() {
+    set_knobs(Knobs::default());
+}
+
+pub fn knobs() -> Knobs {
+    KNOBS.with(|c| c.borrow().clone())
+}
+
+pub(crate) fn record_gate_instances<F: RichField + Extendable<D>, const D: usize>(
+    instances: &[GateInstance<F, D>],
+) {
+    let boxed: Box<dyn Any> = Box::new(instances.to_vec());
+    RECORDED.with(|c| *c.borrow_mut() = Some(boxed));
+}
+
+/// The gate instances (one per row, after blinding and padding) of the last circuit built on the
+/// calling thread, if it was built over `F`, `D`.
+pub fn take_gate_instances<F: RichField + Extendable<D>, const D: usize>(
+) -> Option<Vec<GateInstance<F, D>>> {
+    RECORDED
+        .with(|c| c.borrow_mut().take())
+        .and_then(|b| b.downcast::<Vec<GateInstance<F, D>>>().ok())
+        .map(|b| *b)
+}
+
+pub(crate) fn hook_zs<F: Field>(polys: &mut [Vec<PolynomialValues<F>>]) {
+    let k = knobs();
+    if k.zero_zs {
+        for per_challenge in polys.iter_mut() {
+            for p in per_challenge.iter_mut() {
+                for v in p.values.iter_mut() {
+                    *v = F::ZERO;
+                }
+            }
+        }
+    }
+    if let Some(s) = k.scale_zs {
+        let s = F::from_noncanonical_u64(s);
+        for per_challenge in polys.iter_mut() {
+            for p in per_challenge.iter_mut() {
+                for v in p.values.iter_mut() {
+                    *v *= s;
+                }
+            }
+        }
+    }
+}
+
+pub(crate) fn hook_quotient<F: Field>(
+    mut polys: Vec<PolynomialCoeffs<F>>,
+    quotient_degree: usize,
+) -> Vec<PolynomialCoeffs<F>> {
+    let k = knobs();
+    if let Some((challenge, coeff, delta)) = k.quotient_perturb {
+        if let Some(p) = polys.get_mut(challenge) {
+            let n = p.coeffs.len().min(quotient_degree).max(1);
+            if let Some(c) = p.coeffs.get_mut(coeff % n) {
+                *c += F::from_noncanonical_u64(delta);
+            }
+        }
+    }
+    if k.lenient_quotient {
+        for p in polys.iter_mut() {
+            if p.coeffs.len() > quotient_degree {
+                p.coeffs.truncate(quotient_degree);
+            }
+        }
+    }
+    polys
+}
+
+pub(crate) fn hook_witness<F: Field>(pw: &mut PartitionWitness<F>) {
+    let k = knobs();
+    for &(row, column, value) in &k.witness_overrides {
+        if row < pw.degree && column < pw.num_wires {
+            let idx = pw.representative_map[Target::wire(row, column).index(pw.num_wires, pw.degree)];
+            pw.values[idx] = Some(F::from_noncanonical_u64(value));
+        }
+    }
+}
+
+pub(crate) fn pow_override<F: Field>() -> Option<F> {
+    knobs().pow_witness.map(F::from_noncanonical_u64)
+}
+
+// ---- read-only re-exports of crate-private helpers ----
+
+pub fn compress_merkle_proofs<F: RichField, H: Hasher<F>>(
+    cap_height: usize,
+    indices: &[usize],
+    proofs: &[MerkleProof<F, H>],
+) -> Vec<MerkleProof<F, H>> {
+    crate::hash::path_compression::compress_merkle_proofs(cap_height, indices, proofs)
+}
+
+pub fn decompress_merkle_proofs<F: RichField, H: Hasher<F>>(
+    leaves_data: &[Vec<F>],
+    leaves_indices: &[usize],
+    compressed_proofs: &[MerkleProof<F, H>],
+    height: usize,
+    cap_height: usize,
+) -> Vec<MerkleProof<F, H>> {
+    crate::hash::path_compression::decompress_merkle_proofs(
+        leaves_data,
+        leaves_indices,
+        compressed_proofs,
+        height,
+        cap_height,
+    )
+}
+
+pub fn reverse_bits(n: usize, num_bits: usize) -> usize {
+    crate::util::reverse_bits(n, num_bits)
+}
+
+pub fn coset_interpolation_gate_with_max_degree<F: RichField + Extendable<D>, const D: usize>(
+    subgroup_bits: usize,
+    max_degree: usize,
+) -> crate::gates::coset_interpolation::CosetInterpolationGate<F, D> {
+    crate::gates::coset_interpolation::CosetInterpolationGate::with_max_degree(
+        subgroup_bits,
+        max_degree,
+    )
+}
